@@ -543,11 +543,15 @@ def flatten_fold(repo, run, rule):
                 unknown.append('iteration space %s not recognised' % arg[:80])
         if x != m.result.text:
             probs.append((st, 'the folded result does not replace self.stages (%s)' % x[:60]))
-    if not n:
-        raise AnalysisError('Builder.flatten: fold loop (for ... acc = acc.ayns.merge(stage)) not recognised')
-    if unknown and not probs:
-        raise AnalysisError('Builder.flatten: ' + unknown[0])
-    if probs:
+    if any(isinstance(c_, ast.Call) and norm(c_.func) in ('functools.reduce', 'reduce') for c_ in ast.walk(fi.node)):
+        probs, unknown, n = [], ['the fold is written with functools.reduce'], 0
+    # (what is merged into what, in which order, is decided by evaluation - buildrules.builder_pipeline runs Builder.flatten on lists of
+    # stand-in stages; the shape read off the trace is reported only when it is a recognised one)
+    if not n and not probs:
+        run.info(rule, fi, 'fold over stages', 'fold loop not in a recognised shape on the trace; decided by the evaluated pipeline')
+    elif unknown and not probs:
+        run.info(rule, fi, 'fold over stages', '%s; decided by the evaluated pipeline' % unknown[0])
+    elif probs:
         seen = set()
         for ev, why in probs:
             if why not in seen:
